@@ -234,30 +234,50 @@ def visit_cases():
 
 
 WHILE_KEY = "luqum.naming.element_from_path#while0"
+FOR_KEY = "luqum.naming.element_from_path#0"
 REST = object()
 
 
 class PathCut:
-    """cut-point of `while path: node = node.children[path.pop(0)]`: from an arbitrary state (node, [i] + rest) one
-    iteration gives (node.children[i], rest); decreases len(path)"""
+    """cut-point of the loop of element_from_path, for either spelling of it: `while path: node = node.children[path.pop(0)]` or
+    `for position in path: node = node.children[position]`.  From an arbitrary state (node, index i first) one iteration gives
+    node.children[i] and leaves the rest of the path for the next iterations; decreases the number of indices left.
+    The state variables are found by what they hold at the loop head (the tree given as argument, the copy of the path), not by name."""
 
-    def __init__(self, node, i):
-        self.node, self.i = node, i
+    def __init__(self, node, i, entry):
+        self.node, self.i, self.entry = node, i, entry
         self.entered = False
         self.rest = SymInt(name="next_index")     # stands for the rest of the path (never to be used in this step)
+        self.v_node = self.v_path = None
 
     def enter(self, loc):
         self.entered = True
-        return {"node": self.node, "path": [self.i, self.rest]}
+        names = getattr(self, "rebindable", ()) or tuple(loc)
+        self.v_node = rewrite.state_variable(loc, names, lambda v: v is self.entry, "the node reached so far")
+        out = {self.v_node: self.node}
+        paths_ = [n for n in names if isinstance(loc.get(n), list) and loc[n] == [0]]
+        if len(paths_) == 1:                       # the `while` spelling consumes a private copy of the path
+            self.v_path = paths_[0]
+            out[self.v_path] = [self.i, self.rest]
+        return out
+
+    def iterable(self, it):
+        """the `for` spelling: one generic iteration, over the index i"""
+        if list(it) != [0]:
+            raise EngineUnsupported("the loop of element_from_path does not iterate over the path")
+        return [self.i]
 
     def step(self, loc):
-        n2, p2 = loc["node"], loc["path"]
+        n2 = loc[self.v_node]
         kids = list(self.node.children)
         conj = [z3.And(self.i.t == j, z3.BoolVal(n2 is kids[j])) for j in range(len(kids))]
+        rest_ok = True
+        if self.v_path is not None:
+            p2 = loc[self.v_path]
+            rest_ok = isinstance(p2, list) and len(p2) == 1 and p2[0] is self.rest
         raise PathStop([("C15-P/element_from_path/step: descends into child i and consumes one index",
                          (z3.Or(conj) if conj else z3.BoolVal(False))),
-                        ("C15-P/element_from_path/step: rest of the path untouched, length decreases",
-                         len(p2) == 1 and p2[0] is self.rest)])
+                        ("C15-P/element_from_path/step: rest of the path untouched, length decreases", rest_ok)])
 
 
 def path_cases():
@@ -272,12 +292,17 @@ def path_cases():
                 return [("C15-P/element_from_path/%s/empty-path-is-the-tree" % la, N.element_from_path(x, ()) is x)]
             i = SymInt(name="i")
             cx.assume(z3.And(i.t >= 0, i.t < len(kids)))
-            cut = PathCut(x, i)
+            entry = T.Group(T.Word("entry"))          # a valid (tree, path) pair: the state is replaced at the loop head
+            cut = PathCut(x, i, entry)
             rewrite.WHILE_CUTS[WHILE_KEY] = cut
+            rewrite.WHILE_CUTS[FOR_KEY] = cut
+            rewrite.LOOP_CUTS[FOR_KEY] = cut.iterable
             try:
-                N.element_from_path(T.Word("entry"), (0,))
+                N.element_from_path(entry, (0,))
             finally:
                 rewrite.WHILE_CUTS.pop(WHILE_KEY, None)
+                rewrite.WHILE_CUTS.pop(FOR_KEY, None)
+                rewrite.LOOP_CUTS.pop(FOR_KEY, None)
             raise EngineUnsupported("the loop under a cut-point contract was not reached: the code was restructured")
         cases.append(core.Case("C15-P/element_from_path/" + la, run, functions=["luqum.naming.element_from_path"]))
 
